@@ -20,11 +20,11 @@ use std::path::PathBuf;
 pub fn extra_engines(prop: &str, thorough: bool) -> Vec<sup::EnginePlan> {
     let mut v = Vec::new();
     let t = thorough;
-    if matches!(prop, "C02" | "C03" | "C04" | "C07" | "C08" | "C09" | "C10" | "C11" | "C12") {
+    if matches!(prop, "C02" | "C03" | "C04" | "C05" | "C06" | "C07" | "C08" | "C09" | "C10" | "C11" | "C12" | "C16") {
         let wd = if prop == "C09" { if t { 600 } else { 120 } } else if t { 2400 } else { 600 };
         v.push(sup::EnginePlan { engine: "sched", workers: 16, cases_per_worker: if t { 12000 } else { 2500 }, timeout_s: wd });
     }
-    if matches!(prop, "C02" | "C04" | "C05" | "C07" | "C08" | "C10" | "C11" | "C16") {
+    if matches!(prop, "C02" | "C03" | "C04" | "C05" | "C07" | "C08" | "C10" | "C11" | "C16") {
         v.push(sup::EnginePlan { engine: "stress", workers: 4, cases_per_worker: 1, timeout_s: if t { 1800 } else { 600 } });
     }
     if t && matches!(prop, "C01" | "C03" | "C04" | "C05" | "C06" | "C07" | "C08" | "C10" | "C11" | "C12" | "C13" | "C14" | "C16") {
@@ -63,11 +63,13 @@ pub fn rule_for(prop: &str, engine: &str) -> String {
             }
         }
         "stress" => match prop {
-            "C04" => stress::RULE_C04,
+            "C04" => return format!("{}; plus: {}; plus: {}", stress::RULE_C04, stress::RULE_MIXED, stress::RULE_REWEIGH),
+            "C03" => stress::RULE_REWEIGH,
+            "C10" => return format!("{}; plus: {}", stress::RULE_MIXED, stress::RULE_REWEIGH),
             "C16" => stress::RULE_C16,
             "C07" => stress::RULE_C07,
             "C05" => stress::RULE_C05,
-            "C08" | "C10" | "C11" => stress::RULE_MIXED,
+            "C08" | "C11" => stress::RULE_MIXED,
             _ => stress::RULE_C02,
         }
         .to_string(),
